@@ -534,6 +534,196 @@ theorem c11_equiv_partial (T : Str → Bool) (st : Bool) (d : J1) (x : Json) (h 
 example : good (.obj (.cons [97] (.arr (.anyOf (.cons (.str (some 1) (some 3) (some (.pre [97]))) (.cons (.num (some 0) none (some 0) none (some 2)) .nil)))
     (some 1) none) (.cons [98] (.enumP [.str [120], .num 4]) .nil)) true) = true := by decide
 
+/-! ### const / enum by JSON equality (members of every JSON kind)
+
+The members are `Json` values and validity is `jsonEq` (Draft 2020-12 §4.2.2), stated independently of `Json.isPrim`.
+`fromEnumJ` / `fromConstJ` are the converter on such members; on primitive members they ARE `fromJS` (`fromEnumJ_prims`,
+`fromConstJ_prim`). -/
+
+theorem jsonEq_ofPrim (x : Json) (p : Prim) : jsonEq x (.ofPrim p) = x.isPrim p := by
+  cases x <;> cases p <;> simp [jsonEq, Json.ofPrim, Json.isPrim]
+
+/-- a string member equals string instances only — never the value its text spells — and vice versa. -/
+theorem jsonEq_str_left (s : Str) (v : Json) : jsonEq (.str s) v = true → v = .str s := by
+  cases v <;> simp [jsonEq]
+  intro h; exact h.symm
+
+theorem jsonEq_str_right (x : Json) (s : Str) : jsonEq x (.str s) = true → x = .str s := by
+  cases x <;> simp [jsonEq]
+
+theorem jsonEq_refl_scalar (v : Json) (h : v.toPrim?.isSome = true) : jsonEq v v = true := by
+  cases v <;> simp_all [jsonEq, Json.toPrim?]
+
+/-- object members are compared as key → value maps, arrays in order, numbers by value (1 = 1.0 = `num 4`). -/
+example : jsonEq (.obj (.cons [97] (.num 4) (.cons [98] (.arr (.cons .null .nil)) .nil)))
+                 (.obj (.cons [98] (.arr (.cons .null .nil)) (.cons [97] (.num 4) .nil))) = true := by decide
+example : jsonEq (.arr (.cons (.num 4) (.cons (.num 8) .nil))) (.arr (.cons (.num 8) (.cons (.num 4) .nil))) = false := by decide
+example : jsonEq (.str [49]) (.num 4) = false ∧ jsonEq (.num 4) (.str [49]) = false
+    ∧ jsonEq (.str [91, 49, 93]) (.arr (.cons (.num 4) .nil)) = false := by decide
+
+theorem toPrim_ofPrim (p : Prim) : (Json.ofPrim p).toPrim? = some p := by cases p <;> rfl
+
+theorem ofPrim_of_toPrim (v : Json) (p : Prim) (h : v.toPrim? = some p) : v = .ofPrim p := by
+  cases v <;> simp [Json.toPrim?] at h <;> subst h <;> rfl
+
+theorem litOfJ_ofPrim (p : Prim) : litOfJ (.ofPrim p) = litOf p := by simp [litOfJ, toPrim_ofPrim]
+
+theorem map_litOfJ_ofPrim (ps : List Prim) : (ps.map Json.ofPrim).map litOfJ = ps.map litOf := by
+  induction ps with
+  | nil => rfl
+  | cons p ps ih => simp [litOfJ_ofPrim]
+
+theorem allStrsJ_ofPrim (ps : List Prim) : allStrsJ (ps.map Json.ofPrim) = allStrs ps := by
+  induction ps with
+  | nil => rfl
+  | cons p ps ih => cases p <;> simp [allStrsJ, allStrs, Json.ofPrim, ih]
+
+theorem allStrs_some (ps : List Prim) (strs : List Str) (h : allStrs ps = some strs) : ps = strs.map Prim.str := by
+  induction ps generalizing strs with
+  | nil => simp [allStrs] at h; subst h; rfl
+  | cons p ps ih =>
+    cases p <;> simp [allStrs] at h
+    obtain ⟨r, hr, rfl⟩ := h
+    simp [ih r hr]
+
+/-- on primitive members `fromEnumJ` is `fromJS` on the document `{"enum": ps}`. -/
+theorem fromEnumJ_prims (T : Str → Bool) (st : Bool) (ps : List Prim) (h : ps ≠ []) :
+    fromEnumJ (ps.map Json.ofPrim) = fromJS T st (.node (.ofList [.enum ps])) := by
+  obtain ⟨v, vs, rfl⟩ := List.exists_cons_of_ne_nil h
+  have h1 := allStrsJ_ofPrim (v :: vs)
+  have h2 := map_litOfJ_ofPrim (v :: vs)
+  simp only [List.map_cons] at h1 h2
+  simp only [List.map_cons, fromEnumJ, h1, h2, fromJS_node, List.foldl_cons, List.foldl_nil, addKw, assemble]
+  cases allStrs (v :: vs) <;> simp
+
+theorem fromConstJ_prim (T : Str → Bool) (st : Bool) (p : Prim) :
+    fromConstJ (.ofPrim p) = fromJS T st (.node (.ofList [.const p])) := by
+  simp [fromConstJ, litOfJ_ofPrim, fromJS_node, addKw, assemble]
+
+/-- on primitive members validity by `jsonEq` is `jsValid` of the document. -/
+theorem enumValidJ_prims (ps : List Prim) (x : Json) :
+    enumValidJ (ps.map Json.ofPrim) x = jsValid (.node (.ofList [.enum ps])) x := by
+  simp [enumValidJ, jsValid_node, kwValid, List.any_map, Function.comp_def, jsonEq_ofPrim]
+
+theorem constValidJ_prim (p : Prim) (x : Json) :
+    constValidJ (.ofPrim p) x = jsValid (.node (.ofList [.const p])) x := by
+  simp [constValidJ, jsValid_node, kwValid, jsonEq_ofPrim]
+
+def scalars (vs : List Json) : Bool := vs.all (fun v => v.toPrim?.isSome)
+
+theorem scalars_prims : (vs : List Json) → scalars vs = true → ∃ ps : List Prim, vs = ps.map Json.ofPrim
+  | [], _ => ⟨[], rfl⟩
+  | v :: vs, h => by
+    simp only [scalars, List.all_cons, Bool.and_eq_true] at h
+    obtain ⟨ps, rfl⟩ := scalars_prims vs h.2
+    obtain ⟨p, hp⟩ := Option.isSome_iff_exists.1 h.1
+    exact ⟨p :: ps, by simp [ofPrim_of_toPrim v p hp]⟩
+
+/-- the enum documents the equivalence is proved for: at least one member, every member a scalar (any mixture of
+    booleans, numbers and strings, in any order, with repeats, with strings that spell other members), no null member
+    (class nullable-union). -/
+def goodEnumJ (vs : List Json) : Bool := !vs.isEmpty && scalars vs && !vs.any (fun v => v.isNull)
+
+/-- a Literal / Enum over scalar members never meets an uncomparable pair. -/
+theorem scalars_no_panic (vs : List Json) (x : Json) (h : scalars vs = true) : parsePanicsJ vs x = false := by
+  have : vs.any (fun v => sameComposite x v) = false := by
+    induction vs with
+    | nil => rfl
+    | cons v vs ih =>
+      simp only [scalars, List.all_cons, Bool.and_eq_true] at h
+      have hv : sameComposite x v = false := by
+        cases v <;> simp [Json.toPrim?] at h <;> cases x <;> simp [sameComposite]
+      simp [hv, ih (by simpa [scalars] using h.2)]
+  simp [parsePanicsJ, this]
+
+theorem null_any_ofPrim (ps : List Prim) : (ps.map Json.ofPrim).any (fun v => v.isNull) = ps.contains .null := by
+  induction ps with
+  | nil => rfl
+  | cons p ps ih => cases p <;> simp_all [Json.ofPrim, Json.isNull]
+
+/-- C11 for enum documents, by JSON equality: FromJSONSchema returns a schema whose ParseAny never panics and accepts
+    exactly the instances JSON-equal to a member — whatever the other members are. -/
+theorem c11_enum_partial (vs : List Json) (x : Json) (h : goodEnumJ vs = true) (hx : instOK x = true) :
+    ∃ s, fromEnumJ vs = .ok s ∧ parsePanicsJ vs x = false ∧ acceptsDecoded s x = enumValidJ vs x := by
+  simp only [goodEnumJ, Bool.and_eq_true, Bool.not_eq_true', List.isEmpty_eq_false_iff] at h
+  obtain ⟨⟨hne, hsc⟩, hnull⟩ := h
+  obtain ⟨ps, rfl⟩ := scalars_prims vs hsc
+  have hps : ps ≠ [] := by intro e; subst e; exact hne rfl
+  rw [null_any_ofPrim] at hnull
+  have key : ∀ d : J1, good d = true → d.doc = .node (.ofList [.enum ps]) →
+      ∃ s, fromEnumJ (ps.map Json.ofPrim) = .ok s ∧ parsePanicsJ (ps.map Json.ofPrim) x = false
+        ∧ acceptsDecoded s x = enumValidJ (ps.map Json.ofPrim) x := by
+    intro d hd hdoc
+    obtain ⟨s, hs, he⟩ := c11_equiv_partial (fun _ => false) false d x hd hx
+    exact ⟨s, by rw [fromEnumJ_prims (fun _ => false) false ps hps, ← hdoc]; exact hs, scalars_no_panic _ x hsc,
+      by rw [enumValidJ_prims, ← hdoc]; exact he.symm⟩
+  cases hs : allStrs ps with
+  | some strs =>
+    have e := allStrs_some ps strs hs
+    subst e
+    refine key (.enumS strs) ?_ (by simp [J1.doc])
+    simp only [good, Bool.not_eq_true', List.isEmpty_eq_false_iff]
+    intro e; subst e; exact hps rfl
+  | none =>
+    refine key (.enumP ps) ?_ (by simp [J1.doc])
+    have hn : Prim.null ∉ ps := by simpa using hnull
+    simp [good, hs, hn, hps]
+
+/-- every member of an enum document is accepted — the other members cannot shadow it. -/
+theorem c11_enum_members_accepted (vs : List Json) (m : Json) (h : goodEnumJ vs = true) (hm : m ∈ vs)
+    (hi : instOK m = true) : ∃ s, fromEnumJ vs = .ok s ∧ acceptsDecoded s m = true := by
+  obtain ⟨s, hs, _, he⟩ := c11_enum_partial vs m h hi
+  refine ⟨s, hs, ?_⟩
+  rw [he, enumValidJ, List.any_eq_true]
+  simp only [goodEnumJ, Bool.and_eq_true, scalars, List.all_eq_true] at h
+  exact ⟨m, hm, jsonEq_refl_scalar m (h.1.2 m hm)⟩
+
+example : goodEnumJ [.num 4, .str [49], .bool true, .str [116, 114, 117, 101], .num 4] = true := by decide
+
+/-- C11 for const documents with a scalar value (null included). -/
+theorem c11_const_partial (v x : Json) (h : v.toPrim?.isSome = true) (hx : instOK x = true) :
+    ∃ s, fromConstJ v = .ok s ∧ parsePanicsJ [v] x = false ∧ acceptsDecoded s x = constValidJ v x := by
+  obtain ⟨p, hp⟩ := Option.isSome_iff_exists.1 h
+  have e := ofPrim_of_toPrim v p hp
+  subst e
+  obtain ⟨s, hs, he⟩ := c11_equiv_partial (fun _ => false) false (.const p) x (by simp [good]) hx
+  refine ⟨s, ?_, scalars_no_panic _ x (by simp [scalars, toPrim_ofPrim]), ?_⟩
+  · rw [fromConstJ_prim (fun _ => false) false p]; simpa [J1.doc] using hs
+  · rw [constValidJ_prim]; simpa [J1.doc] using he.symm
+
+example : (Json.str [49]).toPrim?.isSome = true := by decide
+
+/-- full strength over all members: FALSE on the pinned code — an array / object member is never accepted, and an
+    instance of its kind makes ParseAny panic (finding composite-literal); a null member of a union is shadowed by the
+    union's nil path (finding nullable-union). -/
+def c11_members_full : Prop :=
+  ∀ (vs : List Json) (x : Json), vs ≠ [] →
+    ∃ s, fromEnumJ vs = .ok s ∧ parsePanicsJ vs x = false ∧ acceptsDecoded s x = enumValidJ vs x
+
+/-- the Parse verdict of the converted schema (`none`: the conversion fails). -/
+def verdictR (r : R) (x : Json) : Option Bool :=
+  match r with
+  | .ok s => some (acceptsDecoded s x)
+  | .error _ => none
+
+theorem witness_composite_member :
+    enumValidJ [.arr (.cons (.num 4) .nil), .str [120]] (.arr (.cons (.num 4) .nil)) = true
+    ∧ parsePanicsJ [.arr (.cons (.num 4) .nil), .str [120]] (.arr (.cons (.num 4) .nil)) = true
+    ∧ verdictR (fromEnumJ [.arr (.cons (.num 4) .nil), .str [120]]) (.arr (.cons (.num 4) .nil)) = some false
+    ∧ verdictR (fromEnumJ [.arr (.cons (.num 4) .nil), .str [120]]) (.str [120]) = some true
+    ∧ parsePanicsJ [.arr (.cons (.num 4) .nil), .str [120]] (.arr .nil) = true
+    ∧ parsePanicsJ [.arr (.cons (.num 4) .nil), .str [120]] (.obj .nil) = false := by decide
+
+theorem witness_composite_const :
+    constValidJ (.obj (.cons [97] (.num 4) .nil)) (.obj (.cons [97] (.num 4) .nil)) = true
+    ∧ verdictR (fromConstJ (.obj (.cons [97] (.num 4) .nil))) (.obj (.cons [97] (.num 4) .nil)) = some false
+    ∧ parsePanicsJ [.obj (.cons [97] (.num 4) .nil)] (.obj (.cons [97] (.num 4) .nil)) = true := by decide
+
+theorem c11_members_full_false : ¬ c11_members_full := by
+  intro h
+  obtain ⟨s, _, hp, _⟩ := h [.arr (.cons (.num 4) .nil), .str [120]] (.arr (.cons (.num 4) .nil)) (by simp)
+  exact absurd hp (by decide)
+
 /-! ### round trip: ToJSONSchema (FromJSONSchema doc) validates the same instances -/
 
 mutual
